@@ -24,7 +24,7 @@ REPORT_COUNTERS = ['programs', 'variants', 'comparisons', 'equal', 'equal_via_re
 
 def plan(tier, seed):
   return {'nshards': 16, 'timeout_s': 5400 if tier == 'thorough' else 1200,
-          'params': {'n_programs': 90 if tier == 'thorough' else 5, 'singles': 12 if tier == 'thorough' else 3}}
+          'params': {'n_programs': 25 if tier == 'thorough' else 5, 'singles': 8 if tier == 'thorough' else 3}}
 
 
 def features_for(i):
